@@ -1,0 +1,54 @@
+//go:build verif
+
+package protocol
+
+// Exports for the external verification harness (property C10). Add-only; compiled only with -tags verif.
+
+// VerifC10ProtocolNumbers returns the protocol type numbers in the order
+// closeConnRequest, closeConnResponse, openSessionRequest, openSessionResponse,
+// closeSessionRequest, closeSessionResponse, dataClientToServer, dataServerToClient,
+// ackClientToServer, ackServerToClient, dataClientToServerLowEntropy, dataServerToClientLowEntropy.
+func VerifC10ProtocolNumbers() []int64 {
+	return []int64{
+		int64(closeConnRequest), int64(closeConnResponse), int64(openSessionRequest), int64(openSessionResponse),
+		int64(closeSessionRequest), int64(closeSessionResponse), int64(dataClientToServer), int64(dataServerToClient),
+		int64(ackClientToServer), int64(ackServerToClient), int64(dataClientToServerLowEntropy), int64(dataServerToClientLowEntropy),
+	}
+}
+
+// VerifC10PacketNonHeaderPosition is packetNonHeaderPosition.
+const VerifC10PacketNonHeaderPosition = packetNonHeaderPosition
+
+// VerifC10Classify returns isSessionProtocol, isDataProtocol, isAckProtocol, isLowEntropyProtocol of p.
+func VerifC10Classify(p byte) (session, data, ack, lowEntropy bool) {
+	t := protocolType(p)
+	return isSessionProtocol(t), isDataProtocol(t), isAckProtocol(t), isLowEntropyProtocol(t)
+}
+
+func verifC10Segment(p byte, sessionID uint32) *segment {
+	if isSessionProtocol(protocolType(p)) {
+		return &segment{metadata: &sessionStruct{baseStruct: baseStruct{protocol: p}, sessionID: sessionID}}
+	}
+	return &segment{metadata: &dataAckStruct{baseStruct: baseStruct{protocol: p}, sessionID: sessionID}}
+}
+
+// VerifC10ServerDirectionOK calls validateServerSegmentDirection on a segment with protocol p.
+func VerifC10ServerDirectionOK(p byte) bool {
+	return validateServerSegmentDirection(verifC10Segment(p, 1)) == nil
+}
+
+// VerifC10NewServerSessionOK calls validateNewServerSessionSegment on a segment with protocol p and the session ID.
+func VerifC10NewServerSessionOK(p byte, sessionID uint32) bool {
+	return validateNewServerSessionSegment(verifC10Segment(p, sessionID)) == nil
+}
+
+// VerifC10TreeInsertPanics reports whether segmentTree.Insert panics for a segment of protocol p.
+func VerifC10TreeInsertPanics(p byte) (panicked bool) {
+	defer func() {
+		if r := recover(); r != nil {
+			panicked = true
+		}
+	}()
+	newSegmentTree(4).Insert(verifC10Segment(p, 1))
+	return false
+}
